@@ -114,7 +114,7 @@ impl<T: Tag> Header<T> {
     Fn(HDR, 'parse', impl='impl<T> Header<T> where T: Tag,',
        subs=[READ1, ret(),
              ('input.by_ref().take(size_rest).read_to_end(&mut buf)?;', 'input.take_read_to_end(size_rest, &mut buf)?;', None, 'R16-Take::read_to_end'),
-             ('return Err(io::Error::from(io::ErrorKind::UnexpectedEof).into());', 'return Err(Error::Io);', None, 'R4-error-conversion'),
+             ] + IOERR_RULES + [
              ('&buf[..]', 'buf.as_slice()', None, 'R17-full-range-slice'),
              ('Vec::new()', 'Vec::<u8>::new()', None, 'R9-type-annotation')],
        spec='''    ensures
@@ -230,7 +230,7 @@ impl<T: Tag> Header<T> {
     Fn(HDR, 'padding_required', impl='impl Header<IndexSignatureTag>', subs=[ret()],
        spec='    ensures r as int == sigpad(self.index_header.data_section_size as int), 0 <= r < 8,'),
     Fn(HDR, 'parse_signature', impl='impl Header<IndexSignatureTag>',
-       subs=[READ1, ret()],
+       subs=[READ1, ret()] + IOERR_RULES + MINMAX_RULES,
        spec='''    ensures
         old(input).remaining().len() < 16 ==> r is Err,
         r is Ok ==> {
@@ -241,12 +241,14 @@ impl<T: Tag> Header<T> {
             &&& r0.len() >= hdr_len(h) + pad
             &&& final(input).remaining() == r0.subrange(hdr_len(h) + pad, r0.len() as int)
         },''',
-       after=[('input.read_exact(&mut discard)?;', '''
-            proof {
-                let r0 = old(input).remaining();
-                let l = hdr_len(result);
-                assert(input.remaining() =~= r0.subrange(l + padding as int, r0.len() as int));
-            }''')]),
+       before=[('Ok(result)', '''proof {
+            let r0 = old(input).remaining();
+            let l = hdr_len(result);
+            if r0.len() >= l + padding as int {
+                assert(r0.subrange(l, r0.len() as int).subrange(padding as int, r0.len() - l) =~= r0.subrange(l + padding as int, r0.len() as int));
+            }
+        }
+        ''')]),
     Raw('}\nimpl PackageMetadata {\n'),
     Fn(PKG, 'parse', impl='impl PackageMetadata',
        subs=[READ1, ret()],
